@@ -267,7 +267,7 @@ static std::vector<std::string> listDir(const std::string &d, const std::string 
 
 // ---------------------------------------------------------------------------------------------- main
 int main(int argc, char **argv) {
-  ctx = parse_args("C02", argc, argv, 150, 1500);
+  ctx = parse_args("C02", argc, argv, 300, 2400);
   if (chdir(ctx.scratch.c_str())) harness_fail("chdir scratch");
   Report rep; rep.ctx = ctx;
   auto K = cornerSet(ctx.thorough());
